@@ -66,6 +66,11 @@ fn my_mir_promoted<'tcx>(
         let cloned: Box<Body<'tcx>> = Box::new((*b).clone());
         let p = Box::into_raw(cloned) as usize;
         BODIES.lock().unwrap().push(p);
+        let pr = r.1.borrow();
+        for pb in pr.iter() {
+            let cloned: Box<Body<'tcx>> = Box::new(pb.clone());
+            BODIES.lock().unwrap().push(Box::into_raw(cloned) as usize);
+        }
     }
     r
 }
@@ -94,6 +99,7 @@ impl Callbacks for Cb {
                 return Compilation::Continue;
             }
         }
+        mir_dump::CRATE.with(|c| *c.borrow_mut() = krate.clone());
         let ptrs: Vec<usize> = std::mem::take(&mut *BODIES.lock().unwrap());
         let mut bodies: Vec<(String, J)> = Vec::new();
         for p in ptrs {
